@@ -111,11 +111,14 @@ def analyse(calls, rounds, res):
 def apply(prop, res, results, config_prefix, notes, REPLAYS, seed):
     """Fold a run() result into the child results of bin/check for property prop
     (only the violations that belong to prop are reported)."""
-    tgt = next((r for r in results if r["config"].startswith(config_prefix) and "purego" not in r["config"] and r["partial"]), None)
+    tgt = next((r for r in results if r["config"].startswith(config_prefix) and "purego" not in r["config"]), None)
     mine = [v for v in res["violations"] if v.startswith(prop + ":") or not v.startswith(("C17:", "C19:"))]
     if tgt is None:
         return
     p = tgt["partial"]
+    if p is None:
+        # the Go-level child died (e.g. a guard-page fault): keep the trace verdict anyway
+        p = dict(classes={}, evaluations=0, distinct_nontrivial=0, violations=0)
     p.setdefault("extras", {})["asm_trace"] = res["summary"]
     if res["inconclusive"]:
         p.setdefault("inconclusive", []).append("assembly single-step trace: " + res["inconclusive"])
